@@ -1081,3 +1081,34 @@ def calls_random(rng, count):
             a, b = pairs[max(0, min(i, len(pairs) - 1))] if rng.random() < 0.8 else (rng.randrange(1, len(R) + 1), rng.randrange(1, len(Q) + 1))
             yield (f"CALLS variant=mol chrom={rng.randrange(1, 24)} qid={rng.randrange(1, 999)} R={','.join(map(str, R))} Q={','.join(map(str, Q))} "
                    f"PAIRS={ps} BP={i} BPAIR={a}:{b}")
+
+
+def chain_synthetic(rng, count):
+    """hand-built chains for the DP: 2-7 two-pair segments laid along a diagonal with UNEQUAL reference / query gaps
+    (where the two join-score variants differ most), small overlaps, and segment scores of the same order as the join
+    penalties, so that several predecessors of a segment have nearly equal cumulated scores"""
+    for _ in range(count):
+        n = rng.randrange(2, 8)
+        sp = 1000
+        P = {"sp": sp, "dp": 1, "su": -250, "md": 1500, "ms": 1, "bs": 1200}
+        r = rng.randrange(0, 5000)
+        q = rng.randrange(0, 5000)
+        segs = []
+        site = 1
+        for k in range(n):
+            ln = rng.choice([300, 1000, 2500, 6000])
+            stretch = rng.choice([1.0, 1.0, 0.9, 1.1])
+            items = []
+            for (dr, dq) in ((0, 0), (ln, int(ln * stretch))):
+                shift = rng.choice([0, 100, 400, 700, 950])
+                items.append(f"P:{site}:{r + dr}:{site}:{q + dq}:{shift}")
+                site += 1
+            segs.append(f"{rng.randrange(0, 9)}|" + ",".join(items))
+            gr = rng.choice([-200, 0, 150, 500, 1000, 1400, 3000])
+            gq = int(gr * rng.choice([1.0, 0.4, 0.414, 0.6, 1.7, 2.4])) if gr > 0 else rng.choice([-100, 0, 300, 1000])
+            r += ln + gr
+            q += int(ln * stretch) + gq
+        if rng.random() < 0.5:
+            rng.shuffle(segs)
+        mult = rng.choice(["1", "1", "1/2", "2", "1/4"])
+        yield f"CHAIN {pstr(P)} mult={mult} var={rng.choice([0, 1, 1])} SEG={';'.join(segs)}"
